@@ -111,11 +111,16 @@ func parseTreeCase(c *Ctx, src []byte) {
 // (ParseTree then RenderHTML)
 var convertMDs = map[string]goldmark.Markdown{}
 
-func convertCase(c *Ctx, cf Cfg, src []byte) {
+func convertCase(c *Ctx, cf Cfg, src []byte) { convertCaseK(c, "Convert", cf, src) }
+
+// the same with parser.WithAutoHeadingID(), against ConvertModelA (model/HeadingIds.v)
+func convertAutoIDCase(c *Ctx, cf Cfg, src []byte) { convertCaseK(c, "ConvertA", cf, src) }
+
+func convertCaseK(c *Ctx, kind string, cf Cfg, src []byte) {
 	if len(src) > 600 {
 		return
 	}
-	key := rcfgStr(cf)
+	key := kind + rcfgStr(cf)
 	md, ok := convertMDs[key]
 	if !ok {
 		var ro []renderer.Option
@@ -128,7 +133,11 @@ func convertCase(c *Ctx, cf Cfg, src []byte) {
 		if cf.HardWraps {
 			ro = append(ro, html.WithHardWraps())
 		}
-		md = goldmark.New(goldmark.WithRendererOptions(ro...))
+		if kind == "ConvertA" {
+			md = goldmark.New(goldmark.WithRendererOptions(ro...), goldmark.WithParserOptions(parser.WithAutoHeadingID()))
+		} else {
+			md = goldmark.New(goldmark.WithRendererOptions(ro...))
+		}
 		convertMDs[key] = md
 	}
 	res := ""
@@ -145,7 +154,7 @@ func convertCase(c *Ctx, cf Cfg, src []byte) {
 		}
 		res = hx(b.Bytes())
 	}()
-	c.Case("Convert", []string{key, hx(src)}, res)
+	c.Case(kind, []string{rcfgStr(cf), hx(src)}, res)
 }
 
 var convertCfgs = []Cfg{{}, {Unsafe: true}, {XHTML: true}, {Unsafe: true, XHTML: true}, {HardWraps: true}, {Unsafe: true, XHTML: true, HardWraps: true}}
